@@ -200,7 +200,8 @@ CORPUS = [
     ("(pow (i -2) (s x))", None), ("(pow (q 1 2) (s x))", None), ("(pow (q -1 2) (s x))", None), ("(pow I (s x))", None),
     ("(pow (c 0 1 -1 1) (s x))", None), ("(pow (c 1 1 2 1) (s x))", None), ("(pow (s x) (q -1 2))", None),
     ("(pow (s x) (neg (s y)))", None), ("(pow (pow (s x) (s y)) (s z))", None), ("(pow (s x) (pow (s y) (s z)))", None),
-    ("(pow (s x) -oo)", None), ("(pow (s x) (i -1))", None), ("(neg (pow (s x) (i -1)))", None),
+    ("(pow (s x) -oo)", None), ("(pow -oo (s x))", None), ("(mul (i 2) (pow -oo (s x)))", None), ("(pow oo (s x))", None),
+    ("(pow (s x) (i -1))", None), ("(neg (pow (s x) (i -1)))", None),
     ("(div (q 2 3) (mul (s x) (s y)))", None), ("(div (mul (q -2 3) (s z)) (mul (s x) (pow (s y) (i 2))))", None),
     ("(mul (c 1 2 -1 3) (s x))", None), ("(add (c 1 2 -1 3) (s x))", None), ("(mul (q -1 2) (s x))", None),
     ("(sub (i 0) (add (s x) (s y)))", None), ("(mul (pow E (s x)) (pow E (neg (s y))))", None),
@@ -300,11 +301,19 @@ def classify(recipe, d=None):
         return "C16/roundtrip:complex-double"
     if isinstance(t, list) and t and t[0] == "fs" and len(t) == 2:
         return "C16/roundtrip:funsym-no-args"
+    if isinstance(t, list) and len(t) == 3 and t[0] == "pow" and t[1] == "-oo":
+        return "C16/roundtrip:pow:negative-infinity-base"
     if isinstance(t, list) and t and t[0] in ("f1", "f2", "fs"):
         return "C16/roundtrip:%s:%s" % (t[0], t[1])
     if isinstance(t, list) and t:
         return "C16/roundtrip:" + str(t[0])
     return "C16/roundtrip:" + str(t)
+
+
+def unsign_zero(t):
+    """the text with the sign of every zero literal removed (-0.0 and 0.0 are eq)"""
+    import re
+    return re.sub(r"(?<![0-9])-(0\.0)(?![0-9])", r"\1", t)
 
 
 def parse_S(raw):
@@ -421,7 +430,8 @@ def explore(ctx, drv, model, pairs, search=False):
         rep = {"family": "C16", "recipe": r, "recipe2": r2}
         # ---- oracle 1: equal expressions print alike
         if d.get("EQ12") == "1" and d.get("STR2") != d["STR"]:
-            zero = ("(d 0000000000000000)" in r or "(d 8000000000000000)" in r or "(cd 0000" in r or "(cd 8000" in r)
+            zero = ("(d 0000000000000000)" in r or "(d 8000000000000000)" in r or "(cd 0000" in r or "(cd 8000" in r
+                    or unsign_zero(s.decode("latin-1")) == unsign_zero(bytes.fromhex(d["STR2"]).decode("latin-1")))
             key = "C16/eq-print:signed-zero" if zero else "C16/eq-print:" + classify(r).split(":", 1)[1]
             ctx.violation(key, "eq expressions print differently: %s -> %s, %s -> %s" % (
                 r, pc.show(s), r2, pc.show(bytes.fromhex(d["STR2"]))), rep)
